@@ -9,6 +9,7 @@ import (
 	"github.com/relab/hotstuff"
 	"github.com/relab/hotstuff/core/eventloop"
 	"github.com/relab/hotstuff/internal/proto/clientpb"
+	"github.com/relab/hotstuff/internal/proto/hotstuffpb"
 	"github.com/relab/hotstuff/security/blockchain"
 )
 
@@ -17,13 +18,13 @@ import (
 // store / store-again / get / extends / commit operations against TWO real Blockchain instances: B receives
 // the same operations as A except that it never stores a block twice. Checks: content addressing, Extends
 // against exact ancestry, abandoned-block reports against the committed chain (never on it, at most once),
-// and that A and B — which differ only by idempotent operations — report the same.
+// and that A and B — which differ only by idempotent operations and by which object stands for a block — report the same.
 
 func GenStorePlan(seed uint64) *Plan {
 	g := newGen(seed, 13)
 	p := &Plan{Version: 1, Property: "C13", Seed: seed, Inner: g.u64(), World: "store", UntilMs: 1, MaxSteps: 100000}
 	p.Knobs = map[string]int{"blocks": g.rng(4, 50), "forkPct": pick(g, 10, 30, 50), "equivPct": pick(g, 0, 15, 40), "gapPct": pick(g, 0, 15, 40),
-		"missPct": pick(g, 0, 0, 8), "fetchPct": pick(g, 0, 15, 40), "againPct": pick(g, 0, 20, 50), "ops": g.rng(10, 150)}
+		"missPct": pick(g, 0, 0, 8), "fetchPct": pick(g, 0, 15, 40), "againPct": pick(g, 0, 20, 50), "ops": g.rng(10, 150), "copyPct": pick(g, 0, 30, 60)}
 	return p
 }
 
@@ -93,6 +94,15 @@ func runStoreWorld(t *testing.T, p *Plan, want []string, logw io.Writer) *Result
 	}
 	A, _ := mk()
 	B, _ := mk()
+	// copyPct: store A is sometimes handed another object for the same block (what a second decoding of the same
+	// message, or a fetched copy next to the proposal, is); plans without the knob draw nothing here
+	viaCopy := func(b *hotstuff.Block) *hotstuff.Block {
+		if k("copyPct") > 0 && pct("copyPct") {
+			st.Faults["block-as-another-object"]++
+			return hotstuffpb.BlockFromProto(hotstuffpb.BlockToProto(b))
+		}
+		return b
+	}
 	storedB := map[hotstuff.Hash]bool{gen.b.Hash(): true}
 	held := []*fb{gen} // blocks some replica has stored or fetched (same for A and B)
 	heldSet := map[hotstuff.Hash]bool{gen.b.Hash(): true}
@@ -139,7 +149,7 @@ func runStoreWorld(t *testing.T, p *Plan, want []string, logw io.Writer) *Result
 				continue
 			}
 			logf("store %s", f.name)
-			A.Store(f.b)
+			A.Store(viaCopy(f.b))
 			if !storedB[f.b.Hash()] {
 				B.Store(f.b)
 				storedB[f.b.Hash()] = true
@@ -244,7 +254,7 @@ func runStoreWorld(t *testing.T, p *Plan, want []string, logw io.Writer) *Result
 			for cur := c; cur != committed; cur = cur.par {
 				onChain[cur.b.Hash()] = true
 			}
-			fa := A.PruneToHeight(c.b)
+			fa := A.PruneToHeight(viaCopy(c.b))
 			fbk := B.PruneToHeight(c.b)
 			committed = c
 			logf("commit %s -> abandoned %d", c.name, len(fa))
